@@ -17,7 +17,7 @@ RULE = ("one case = catalog of 0..30 events (ids: printable ASCII <= 64 chars in
         "+-180, +-90, 0, -0.0) x integer catalog id x name x optional unmasked region x write options (header, append in two parts); "
         "round trips: write_ascii->csep.load_catalog, to_dict->from_dict, write_json->load_json, to_dataframe->from_dataframe. "
         "Non-trivial = an id containing a delimiter or quote and a pre-1970 or non-whole-second time; distinct = canonical JSON.")
-ASSUMPTIONS = ["ids are non-empty, without leading/trailing whitespace-only content, <= 64 ASCII characters (the dtype stores 256 bytes)",
+ASSUMPTIONS = ["ids are non-empty, not all blanks, <= 64 printable ASCII characters incl. leading/trailing blanks (the dtype stores 256 bytes)",
                "catalog id through ASCII only when >= 1 event (the format carries it per row)",
                "float fields compared bitwise (struct pack), origin_time as integers"]
 SHARDS = {"quick": 8, "thorough": 16}
@@ -157,8 +157,9 @@ ID_ALPHA = st.characters(min_codepoint=32, max_codepoint=126)
 @st.composite
 def ids(draw):
     s = draw(st.one_of(st.text(ID_ALPHA, min_size=1, max_size=12), st.text(ID_ALPHA, min_size=1, max_size=64),
-                       st.sampled_from(['a,b', 'x"y', '"quoted"', 'semi;colon', 'with space', "ci38457511", "0", "1e5", "-1", "'", ",", '""'])))
-    s = s.strip() or "id"
+                       st.sampled_from(['a,b', 'x"y', '"quoted"', 'semi;colon', 'with space', "ci38457511", "0", "1e5", "-1", "'", ",", '""', " ev 7", "ev 7 ", "  x", "\tno"[1:]])))
+    if not s.strip():
+        s = draw(st.sampled_from(["id", " id", "id ", "  two  blanks "]))
     return s
 
 
